@@ -338,8 +338,12 @@ func VersionWord(v int) int {
 
 // Capacity returns the maximum number of characters a single segment of mode
 // m can carry in a v-l symbol.
-func Capacity(v int, l Level, m Mode) int {
-	avail := 8*DataCodewords(v, l) - 4 - CharCountBits(m, v)
+func Capacity(v int, l Level, m Mode) int { return CapacityWithHeader(v, l, m, 0) }
+
+// CapacityWithHeader is Capacity when headerBits further bits precede the segment (4 for the
+// FNC1-in-first-position mode indicator of a GS1 symbol, 12 for a one-byte ECI header).
+func CapacityWithHeader(v int, l Level, m Mode, headerBits int) int {
+	avail := 8*DataCodewords(v, l) - 4 - CharCountBits(m, v) - headerBits
 	if avail < 0 {
 		return 0
 	}
@@ -373,9 +377,12 @@ func Capacity(v int, l Level, m Mode) int {
 }
 
 // MinVersion returns the smallest version whose Capacity(v,l,m) >= n, or 0.
-func MinVersion(n int, m Mode, l Level) int {
+func MinVersion(n int, m Mode, l Level) int { return MinVersionWithHeader(n, m, l, 0) }
+
+// MinVersionWithHeader is MinVersion with headerBits further bits before the segment.
+func MinVersionWithHeader(n int, m Mode, l Level, headerBits int) int {
 	for v := 1; v <= 40; v++ {
-		if Capacity(v, l, m) >= n {
+		if CapacityWithHeader(v, l, m, headerBits) >= n {
 			return v
 		}
 	}
